@@ -76,8 +76,22 @@ impl WalIndex {
             )
         })?;
 
+        #[cfg(walrus_verif)]
+        if crate::wal::verif_hooks::io_event(crate::wal::verif_hooks::IO_INDEX_TMP) {
+            return Err(std::io::Error::new(
+                std::io::ErrorKind::Other,
+                "injected index write failure",
+            ));
+        }
         fs::write(&tmp_path, &bytes)?;
         fs::File::open(&tmp_path)?.sync_all()?;
+        #[cfg(walrus_verif)]
+        if crate::wal::verif_hooks::io_event(crate::wal::verif_hooks::IO_INDEX_RENAME) {
+            return Err(std::io::Error::new(
+                std::io::ErrorKind::Other,
+                "injected index rename failure",
+            ));
+        }
         fs::rename(&tmp_path, &self.path)?;
         Ok(())
     }
